@@ -1,58 +1,101 @@
 --------------------------------- MODULE TokObj ---------------------------------
-(* C12, the tok OBJECT with a history: one spif_tok_t is given a source (spif_tok_set_src), possibly another  *)
-(* separator (spif_tok_set_sep), and evaluated - again and again.  STATED: the tok class produces exactly the  *)
-(* token list of the quoting grammar for its input, i.e. after every evaluation the token list is             *)
-(* TokEval(current separator, current source) of Quote.tla and nothing of an earlier source survives -        *)
-(* in particular when the new source is empty or holds only delimiters.                                       *)
-(* State: the object (osep, osrc, otoks, oev) and the history of evaluations so far (hist), which is the       *)
-(* replay script: every generated history is executed on ONE real object, the token list compared after        *)
-(* every evaluation.  The scanner variables of Quote.tla stay idle here.                                       *)
+(* C12, the tok OBJECT with a history and a life cycle: one spif_tok_t is given a source (spif_tok_set_src), possibly        *)
+(* another separator (spif_tok_set_sep), possibly its own special characters (spif_tok_set_quote / _set_dquote /              *)
+(* _set_escape), is evaluated, finished with spif_tok_done() and REUSED without an init call - again and again.               *)
+(* STATED: the tok class produces exactly the token list of the quoting grammar for its input, i.e. after every evaluation    *)
+(* the token list is that of the CURRENT separator, source and special characters alone (TokEvalC of Quote.tla) and nothing    *)
+(* of an earlier source or life survives.  C: spif_tok_done() releases source, separator and tokens and puts the stock         *)
+(* special characters back (as every initialiser does), so a finished object that is reused tokenises like a new one.          *)
+(* State: the object (osep, osrc, otoks, oev, och) and the history of steps so far (hist), which is the replay script:         *)
+(* every generated history is executed on ONE real object; after every step the object's special characters are read back       *)
+(* and compared (state token), after every evaluation the token list.  The scanner variables of Quote.tla stay idle here.       *)
 EXTENDS Quote
 
 CONSTANTS HistSources,      \* source texts offered to set_src
           HistSeps,         \* separator strings offered (<<>> = none: white space)
-          HistMax,          \* evaluations per object
-          LongHistSources   \* sources offered when a history grows beyond two evaluations
+          HistMax,          \* evaluations per object (histories without life-cycle steps)
+          LongHistSources,  \* sources offered when a history grows beyond two evaluations
+          LifeSources,      \* sources offered in life-cycle histories (they use the stock AND the custom special characters)
+          LifeSeps,
+          CharChoices       \* [q |-> {..}, dq |-> {..}, esc |-> {..}]: values offered to the three setters
 
 VARIABLES osep, osrc,       \* the object's current separator and source
           otoks,            \* its token list
           oev,              \* it has been evaluated at least once
-          hist              \* <<[d, s, toks], ...>>: the evaluations so far with the expected list after each
-ovars == <<osep, osrc, otoks, oev, hist>>
+          och,              \* its special characters [q, dq, esc]
+          life,             \* this history may use setters and done() (chosen at the start; keeps the plain pair/triple histories small)
+          lastkind,         \* life-cycle histories: setters come in the order quote < dquote < escape between two other steps
+          nev, ndone,       \* evaluations / done() calls so far
+          hist              \* the steps so far: [op, d, s, keep, toks, c, ch] (fields a step does not use are <<>> / 0 / FALSE)
+ovars == <<osep, osrc, otoks, oev, och, life, lastkind, nev, ndone, hist>>
 
 Idle == /\ s = <<>> /\ d = <<>> /\ pos = 1 /\ quote = 0 /\ cur = <<>> /\ toks = <<>> /\ intok = FALSE /\ done = FALSE
 
-HInit == Idle /\ osep = <<>> /\ osrc = <<>> /\ otoks = <<>> /\ oev = FALSE /\ hist = <<>>
+HInit == /\ Idle /\ osep = <<>> /\ osrc = <<>> /\ otoks = <<>> /\ oev = FALSE /\ och = StockChars
+         /\ life \in BOOLEAN /\ lastkind = 0 /\ nev = 0 /\ ndone = 0 /\ hist = <<>>
 
-\* set_src(ss) [+ set_sep(dd)] + eval on the same object; long = this is the third or a later evaluation of the object
-\* (then only the short sources are offered, and only to objects whose whole history is short)
-EvalWith(dd, ss, long) ==
-    LET ts == TokEval(dd, ss) IN
-    /\ (Len(hist) >= 2) = long
-    /\ Len(hist) < HistMax
-    /\ (long => \A k \in 1 .. Len(hist) : hist[k].s \in LongHistSources)
-    /\ osep' = dd /\ osrc' = ss /\ otoks' = ts /\ oev' = TRUE
-    /\ hist' = Append(hist, [d |-> dd, s |-> ss, toks |-> ts])
-    /\ UNCHANGED vars
+StepRec(op, dd, ss, keep, ts, c, ch) == [op |-> op, d |-> dd, s |-> ss, keep |-> keep, toks |-> ts, c |-> c, ch |-> <<ch.q, ch.dq, ch.esc>>]
+
+\* set_src(ss) [+ set_sep(dd) unless keep] + eval on the same object.
+\* plain histories: long = this is the third or a later evaluation (then only the short sources, and only for short histories)
+EvalWith(dd, ss, keep, long) ==
+    LET ts == TokEvalC(och, dd, ss) IN
+    /\ IF life THEN ~long /\ nev < 2
+               ELSE (nev >= 2) = long /\ nev < HistMax /\ (long => \A k \in 1 .. Len(hist) : hist[k].s \in LongHistSources)
+    /\ osep' = dd /\ osrc' = ss /\ otoks' = ts /\ oev' = TRUE /\ nev' = nev + 1 /\ lastkind' = 0
+    /\ hist' = Append(hist, StepRec("eval", dd, ss, keep, ts, 0, och))
+    /\ UNCHANGED <<vars, och, life, ndone>>
     /\ (Len(hist) >= 1 => Obs("history", hist', ts, TRUE))
-OpEvalFresh(dd, ss)             == ~oev /\ EvalWith(dd, ss, FALSE)                   \* first evaluation of a new object
-OpEvalAgain(ss, long)           == oev /\ EvalWith(osep, ss, long)                   \* new source, same separator
-OpEvalAgainNewSep(dd, ss, long) == oev /\ dd # osep /\ EvalWith(dd, ss, long)       \* new source and new separator
+OpEvalFresh(dd, ss)             == ~oev /\ ~life /\ EvalWith(dd, ss, FALSE, FALSE)          \* first evaluation of a new object
+OpEvalAgain(ss, long)           == oev /\ ~life /\ EvalWith(osep, ss, TRUE, long)           \* new source, separator left alone
+OpEvalAgainNewSep(dd, ss, long) == oev /\ ~life /\ dd # osep /\ EvalWith(dd, ss, FALSE, long)   \* new source and new separator
+\* the same three in life-cycle histories (their own, smaller alphabets)
+OpLifeEvalFresh(dd, ss)         == ~oev /\ life /\ EvalWith(dd, ss, FALSE, FALSE)
+OpLifeEvalKeepSep(ss)           == oev /\ life /\ EvalWith(osep, ss, TRUE, FALSE)           \* after done() the separator is "none"
+OpLifeEvalNewSep(dd, ss)        == oev /\ life /\ dd # osep /\ EvalWith(dd, ss, FALSE, FALSE)
+
+\* the setters of the special characters
+SetChar(op, kind, ch) ==
+    /\ life /\ nev < 2 /\ kind > lastkind
+    /\ och' = ch /\ lastkind' = kind
+    /\ hist' = Append(hist, StepRec(op, <<>>, <<>>, FALSE, <<>>, IF kind = 1 THEN ch.q ELSE IF kind = 2 THEN ch.dq ELSE ch.esc, ch))
+    /\ UNCHANGED <<vars, osep, osrc, otoks, oev, life, nev, ndone>>
+OpSetQuote(c)  == c # och.dq /\ c # och.esc /\ SetChar("setq", 1, [och EXCEPT !.q = c])
+OpSetDQuote(c) == c # och.q /\ c # och.esc /\ SetChar("setdq", 2, [och EXCEPT !.dq = c])
+OpSetEscape(c) == c # och.q /\ c # och.dq /\ SetChar("setesc", 3, [och EXCEPT !.esc = c])
+\* C: done() releases source, separator and token list and restores the stock special characters; the object stays usable
+OpDone ==
+    /\ life /\ oev /\ ndone = 0 /\ nev < 2
+    /\ hist[Len(hist)].op = "eval"          \* (setters directly in front of done() would be undone by it: not generated)
+    /\ osep' = <<>> /\ osrc' = <<>> /\ otoks' = <<>> /\ och' = StockChars /\ ndone' = 1 /\ lastkind' = 0
+    /\ hist' = Append(hist, StepRec("done", <<>>, <<>>, FALSE, <<>>, 0, StockChars))
+    /\ UNCHANGED <<vars, oev, life, nev>>
 
 \* (disjuncts over CONSTANT sets, so that TLC reports one coverage count per action)
 HNext == \/ \E ss \in HistSources : \/ OpEvalAgain(ss, FALSE)
                                      \/ \E dd \in HistSeps : OpEvalFresh(dd, ss) \/ OpEvalAgainNewSep(dd, ss, FALSE)
          \/ \E ss \in LongHistSources : OpEvalAgain(ss, TRUE) \/ \E dd \in HistSeps : OpEvalAgainNewSep(dd, ss, TRUE)
+         \/ \E ss \in LifeSources : OpLifeEvalKeepSep(ss) \/ \E dd \in LifeSeps : OpLifeEvalFresh(dd, ss) \/ OpLifeEvalNewSep(dd, ss)
+         \/ \E c \in CharChoices.q : OpSetQuote(c)
+         \/ \E c \in CharChoices.dq : OpSetDQuote(c)
+         \/ \E c \in CharChoices.esc : OpSetEscape(c)
+         \/ OpDone
 HSpec == HInit /\ [][HNext]_<<vars, ovars>>
 
 (* laws *)
 OnlyDelims(dd, ss) == \A k \in 1 .. Len(ss) : IsDelim(dd, ss[k])
-\* S: the token list is a function of the CURRENT separator and source alone
-TokensOfCurrentSourceOnly == oev => /\ otoks = TokEval(osep, osrc)
-                                    /\ hist[Len(hist)] = [d |-> osep, s |-> osrc, toks |-> otoks]
+Evals == {k \in 1 .. Len(hist) : hist[k].op = "eval"}
+\* S: the token list is a function of the CURRENT separator, source and special characters alone
+\* (right after an evaluation: a setter changes the characters, the list stays that of the last evaluation until the next one)
+TokensOfCurrentSourceOnly == (Len(hist) > 0 /\ hist[Len(hist)].op = "eval") => otoks = TokEvalC(och, osep, osrc)
+\* S: with the stock characters that is the grammar of split (TokEval of Quote.tla), whatever the object went through before
+StockObjectIsStockGrammar == \A k \in Evals : hist[k].ch = <<SQ, DQ, BS>> => hist[k].toks = TokEval(hist[k].d, hist[k].s)
 \* S: an empty or all-delimiter source has no tokens, whatever was evaluated before
-BlankSourceHasNoTokens == (oev /\ OnlyDelims(osep, osrc)) => otoks = <<>>
-\* the same (separator, source) gives the same list at every place of a history
-HistoryIrrelevant == \A i \in 1 .. Len(hist), j \in 1 .. Len(hist) :
-                        (hist[i].d = hist[j].d /\ hist[i].s = hist[j].s) => hist[i].toks = hist[j].toks
+BlankSourceHasNoTokens == (oev /\ hist[Len(hist)].op = "eval" /\ OnlyDelims(osep, osrc)) => otoks = <<>>
+\* the same (separator, source, special characters) gives the same list at every place of a history
+HistoryIrrelevant == \A i \in Evals, j \in Evals :
+                        (hist[i].d = hist[j].d /\ hist[i].s = hist[j].s /\ hist[i].ch = hist[j].ch) => hist[i].toks = hist[j].toks
+\* C: done() leaves a blank object with the stock configuration
+DoneResets == \A k \in 1 .. Len(hist) : hist[k].op = "done" => hist[k].ch = <<SQ, DQ, BS>>
+DoneLeavesBlank == (Len(hist) > 0 /\ hist[Len(hist)].op = "done") => (osep = <<>> /\ osrc = <<>> /\ otoks = <<>> /\ och = StockChars)
 ================================================================================
